@@ -133,7 +133,7 @@ def rule_dsread(ctx, R):
         return
     R.rule('A64-DSREAD-HSEM', 'the dataset read at the end of every iteration of a compiled A64 program (full-memory mode) - the generated `eor w20, wA, wB`, the four instructions of the v1 or v2 piece, and the static text '
            'up to the spMix1 update with the two masks the generator writes - executed on a register file of terms performs specification 4.6.2 steps 5-8: ma:mx updated with the zero-extended 32-bit XOR of the '
-           'two read registers before (v1) or after (v2) the halves are swapped, prefetch at base + (new mx & CacheLineAlignMask), read at base + (old ma & CacheLineAlignMask), the eight words XORed into r0..r7', min_instances=24)
+           'two read registers before (v1) or after (v2) the halves are swapped, read at base + (old ma & CacheLineAlignMask), the eight words XORed into r0..r7', min_instances=24)
     FI = astq.Facts(ctx, 'K0')
     mask = FI.const('randomx::CacheLineAlignMask')
     F, regmap, gp, consts, gen = _tables(ctx)
@@ -186,8 +186,10 @@ def rule_dsread(ctx, R):
             for k in range(8):
                 names[regmap[k]] = 'r%d' % k
             checks = [('%s readReg r%d,r%d %s' % (ver, ra, rb, names[r]), m.get(r), exp[r]) for r in sorted(exp)]
-            checks.append(('%s readReg r%d,r%d prefetch address' % (ver, ra, rb), m.prefetch[0] if len(m.prefetch) == 1 else const(0), pf))
             from rules import bitlin
+            # the prefetch is a hint: another address (or none) costs time and changes no result, so it is reported as a note only
+            if len(m.prefetch) != 1 or bitlin.decide(m.prefetch[0], pf)[0] != 'eq':
+                R.note('A64-DSREAD-HSEM: %s readReg r%d,r%d: the prefetch does not address base + (new mx & mask) (%s) - a performance matter, not a result' % (ver, ra, rb, ', '.join(T.term_show(x, None) for x in m.prefetch) or 'no prefetch'))
             obs_mp = mask | (mask << 32)        # the halves of ma:mx are only ever used under CacheLineAlignMask: the other bits are not observable
             for inst, got, want in checks:
                 verdict, how = bitlin.decide(got, want, obs_mp if 'ma:mx' in inst else bitlin.ALL)
@@ -483,7 +485,8 @@ def rule_dsitem(ctx, R):
     tr = run(m, s_pre, s_mix, {s_pre: cand[0]})
     linep = [r for r in range(8, 14) if r not in (regv, cachep, outp) and r in m.x]
     want_line = add(atom(('undef', 102)), T.scale(X.and_(atom(('undef', 101)), const(csize // 64 - 1)), 64))
-    R.check(len(m.prefetch) == 1, 'prefetch of the selected line', where, expected='one prefetch', found=len(m.prefetch))
+    if len(m.prefetch) != 1:
+        R.note('A64-DSITEM-HSEM: %d prefetches of the selected line (a hint; no result depends on it)' % len(m.prefetch))
     if not linep:
         R.violation('cache line pointer', where, expected=T.term_show(want_line, None), found='no register written')
         return
